@@ -5,11 +5,12 @@ import re
 
 R = "vlib.cbmc:cbmc_query"
 ONESHOT = "harness/deflate_common/h_oneshot.c"
+VUNITS = ["harness/deflate_common/link_stubs.c"]
 
 # portable-C configuration for level 0.  igzip/igzip_base.c is compiled as part of the harness TU
 # (see deflate_shim.h), everything else is linked as the repo's own unit.
 UNITS = ["igzip/igzip.c", "igzip/igzip_base_aliases.c", "igzip/hufftables_c.c",
-         "crc/crc_base.c", "crc/crc_base_aliases.c", "igzip/adler32_base.c"]
+         "crc/crc_base.c", "crc/crc64_base.c", "crc/crc_base_aliases.c", "igzip/adler32_base.c"]
 
 WRAPS = {0: "raw", 1: "gzip", 2: "gzip_nohdr", 3: "zlib", 4: "zlib_nohdr"}
 HDR = {0: 0, 1: 10, 2: 0, 3: 2, 4: 0}
@@ -77,19 +78,20 @@ def unwindset(n, exact=False, dynamic=False, extra=None, ncalls=1, nblk=2, avail
         "write_constant_compressed_stateless.0": 2,
         "write_constant_compressed_stateless.1": 2,
         "write_constant_compressed_stateless.2": 2,
-        "rfc1952_header_len.0": 3,
+        "rfc1952_header_len.0": avail + 2,
         "rfc1952_header_len.1": avail + 2,
         "rfc_bits.0": 17,
         "rfc_code_bits.0": 10,
-        "dfl_guided_decode.0": nblk + 1,
+        # nested loops: CBMC numbers loops by the position of their back edge, inner loops first
+        "dfl_guided_decode.0": n + 2,
         "dfl_guided_decode.1": n + 2,
-        "dfl_guided_decode.2": n + 2,
+        "dfl_guided_decode.2": nblk + 1,
         "dfl_check_stream.0": n + 2,
     }
     for i in range(8):
         u["harness.%d" % i] = max(n + 2, ncalls + 2)
     if exact:
-        u.update({"rfc_codes.0": n + 3, "rfc_codes.1": n + 2, "rfc1951_inflate.0": n + 2,
+        u.update({"rfc_codes.0": n + 3, "rfc_codes.1": n + 3, "rfc1951_inflate.0": n + 2,
                   "rfc1951_inflate.1": nblk + 1})
     if dynamic:
         u.update({"rfc_dynamic.0": 20, "rfc_dynamic.1": 20, "rfc_dynamic.2": 140, "rfc_dynamic.3": 330,
@@ -105,6 +107,6 @@ def cdef(name, vals):
 
 
 def fs_flags(avail):
-    """keep the output object cell-split in symex (default limit is 64 elements): header bytes copied from
+    """keep the output object cell-split in symex (default limit is 64 elements; deflate_hdr[328] of the Huffman tables too): header bytes copied from
     the constant tables then stay constants, which keeps the reference decoder's header parse concrete"""
-    return ["--max-field-sensitivity-array-size", str(max(64, avail + 8))]
+    return ["--max-field-sensitivity-array-size", str(max(400, avail + 8))]
